@@ -878,6 +878,9 @@ enum Outcome {
     Blocked(usize),
     /// error: wait for the own commit boundary
     KeyTx,
+    /// conflict whose blockers are all final already: no predecessor to wait for, re-offer at once
+    /// (`add(t, None)`)
+    Retry,
 }
 
 #[derive(Clone, Copy, PartialEq, Eq, Debug)]
@@ -905,6 +908,7 @@ fn script_label(s: &[Vec<Outcome>]) -> String {
                     Outcome::Ok => "ok".to_string(),
                     Outcome::Blocked(d) => format!("b{d}"),
                     Outcome::KeyTx => "key".to_string(),
+                    Outcome::Retry => "retry".to_string(),
                 })
                 .collect::<Vec<_>>()
                 .join(">")
@@ -1001,6 +1005,10 @@ impl DepWorld {
                 tx.blocked_at = self.clock.fetch_add(1, SeqCst);
                 tx.status = Ws::Conflict;
             }
+            Outcome::Retry => {
+                self.dep.add(t, None);
+                tx.status = Ws::Conflict;
+            }
         }
         true
     }
@@ -1034,6 +1042,11 @@ fn dependency_models(v: &mut Vec<Model>) {
             scripts.push(vec![vec![Ok], s1.clone(), s2]);
         }
     }
+    // conflicts without an unfinalised blocker (re-offered at once), alone and mixed
+    scripts.push(vec![vec![Ok], vec![Retry, Ok]]);
+    scripts.push(vec![vec![Retry, Ok], vec![Blocked(0), Ok]]);
+    scripts.push(vec![vec![Ok], vec![Retry, Ok], vec![Blocked(1), Ok]]);
+    scripts.push(vec![vec![Ok], vec![Blocked(0), Retry, Ok], vec![Retry, KeyTx, Ok]]);
     // four transactions, one chain
     scripts.push(vec![vec![Ok], vec![Blocked(0), Ok], vec![Blocked(1), Ok], vec![Blocked(2), Ok]]);
     for (claimers, steps) in [(2usize, 3usize), (2, 2), (3, 2)] {
